@@ -70,6 +70,20 @@ def check(case):
                 ok, lst = call(Cell.from_boc, data)
                 if not ok or len(lst) != 1 or lst[0].hash != parsed.hash or rc.structurally_equal_lib(root_r, lst[0]):
                     return Fail('entry/Cell.from_boc-differs', f'{tag}: {lst!r}')
+                # the list that was returned is the caller's: emptied, refilled, reversed - the same bytes parse to the same root again,
+                # through every list-returning entry point and through the single-root ones
+                lst.pop()
+                lst.extend([Cell.empty(), parsed])
+                ok, lst_b = call(Builder.from_boc, data)
+                if ok and isinstance(lst_b, list):
+                    lst_b.clear()
+                for ename, thunk in (('Cell.from_boc', lambda: Cell.from_boc(data)[0]), ('Cell.one_from_boc', lambda: Cell.one_from_boc(data)),
+                                     ('Builder.from_boc', lambda: Builder.from_boc(data)[0]),
+                                     ('Slice.one_from_boc', lambda: Slice.one_from_boc(data).to_cell())):
+                    ok, again = call(thunk)
+                    if not ok or getattr(again, 'hash', None) != parsed.hash or rc.structurally_equal_lib(root_r, again):
+                        return Fail(f'entry/{ename}-differs/after-the-caller-edited-an-earlier-result-list',
+                                    f'{tag}: {exc_sig(again) if not ok else ""} {again!r}'[:300])
             if not minimal:
                 # the less travelled entry points: Builder.from_boc (a list of cells), Boc(...).deserialize(), Boc.from_hex / from_base64
                 from pytoniq_core.boc.deserialize import Boc
